@@ -1,4 +1,94 @@
-(* Case runner and spec checker (T3) for C12 — stub. *)
-From WI Require Import Lib.Base Lib.Info Model.PgpKey.
-Definition run_C12 (op : bytes) (input : arg) : arg := AL [].
-Definition check_C12 (op : bytes) (input impl : arg) : arg := AL [].
+(* Case runner and spec checker (T3) for C12. *)
+From WI Require Import Lib.Base Lib.Info Lib.Strings Lib.Sha1 Model.PgpKey Model.PgpEntity Run.PgpCommon.
+Open Scope N_scope.
+
+Definition attrs_arg (a : list (bytes * bytes)) : arg := AL (map (fun nv => AL [AB (fst nv); AB (snd nv)]) a).
+
+Definition run_C12 (op : bytes) (input : arg) : arg :=
+  if bytes_eqb op (bs "mpi") then
+    let b := arg_bytes (arg_nth 0 input) in
+    match mpi_read b with
+    | Ok (m, rest) =>
+        AL [AZ 0; AL [AB (m_bytes m); AZ (Z.of_N (m_bits m)); AZ (Z.of_nat (length b - length rest)); AB (mpi_write m)]]
+    | Err _ => AL [AZ 1]
+    | Panic _ => AL [AZ 2]
+    end
+  else if bytes_eqb op (bs "keyhash") then
+    let body := arg_bytes (arg_nth 0 input) in
+    let oracle := arg_list (arg_nth 1 input) in
+    match parse_public_key fixed (or_ecok oracle) body with
+    | Ok (k, _) =>
+        let fp := fingerprint (or_sha1 oracle) k in
+        AL [AZ 0; AL [AB (key_hash_input k); AB fp; AB (N_to_be 8 (key_id_of_fp fp)); AB (key_id_string_of_fp fp);
+                      attrs_arg (describe_key (or_sha1 oracle) k)]]
+    | Err e => if String.eqb e miss then AL [AZ 8] else AL [AZ 1]
+    | Panic _ => AL [AZ 2]
+    end
+  else if bytes_eqb op (bs "sigattrs") then
+    let body := arg_bytes (arg_nth 0 input) in
+    let kc := N_of_arg (arg_nth 1 input) in
+    match parse_sig body with
+    | Ok (s, _) => AL [AZ 0; attrs_arg (describe_sig fixed (s_core s) kc)]
+    | Err _ => AL [AZ 1]
+    | Panic _ => AL [AZ 2]
+    end
+  else if bytes_eqb op (bs "describe") || bytes_eqb op (bs "describe_x") then run_inspect input
+  else AL [].
+
+(* ---- the property ---- *)
+Definition check_C12 (op : bytes) (input impl : arg) : arg :=
+  if bytes_eqb op (bs "mpi") then
+    (* reading then writing an MPI reproduces exactly the octets that were consumed *)
+    let b := arg_bytes (arg_nth 0 input) in
+    match impl with
+    | AL [AZ 0%Z; AL [AB content; AZ bits; AZ consumed; AB rewritten]] =>
+        if negb (bytes_eqb rewritten (take (Z.to_nat consumed) b)) then AS "MPI re-serialisation differs from the octets read"
+        else if negb (bytes_eqb content (drop 2 (take (Z.to_nat consumed) b))) then AS "MPI content is not the octets after the bit count"
+        else if negb (Z.eqb bits (Z.of_N (be_to_N (take 2 b)))) then AS "MPI bit length is not the declared one"
+        else if negb (Z.eqb consumed (2 + (bits + 7) / 8)) then AS "MPI consumed a wrong number of octets"
+        else AL []
+    | AL [AZ 2%Z] => AS "MPI reader panicked"
+    | _ => AL []
+    end
+  else if bytes_eqb op (bs "keyhash") then
+    let body := arg_bytes (arg_nth 0 input) in
+    let wf := arg_bool (arg_nth 0 (arg_nth 2 input)) in
+    let ref := arg_bytes (arg_nth 1 (arg_nth 2 input)) in
+    match impl with
+    | AL [AZ 2%Z] => AS "key packet parser panicked"
+    | AL [AZ 0%Z; AL [AB hin; AB fp; AB kid; AB kids; attrs]] =>
+        if negb wf then AL []
+        else if negb (bytes_eqb hin (153 :: N_to_be 2 (N.of_nat (length body)) ++ body))
+        then AS "fingerprint input is not 0x99, 2-octet length, key packet body as it appears in the input (RFC 4880 12.2)"
+        else if negb (bytes_eqb fp ref) then AS "fingerprint is not the SHA-1 of the RFC 4880 12.2 input"
+        else if negb (bytes_eqb kid (drop 12 fp)) then AS "key ID is not the low 64 bits of the fingerprint"
+        else if negb (bytes_eqb kids (hex_of true (drop 12 fp))) then AS "key ID string is not the upper-case hex of the key ID"
+        else AL []
+    | _ => if wf then AS "well-formed key packet rejected" else AL []
+    end
+  else if bytes_eqb op (bs "sigattrs") then
+    let ref := arg_nth 2 input in
+    let kc := N_of_arg (arg_nth 3 ref) in
+    let simple := arg_bool (arg_nth 4 ref) in
+    match impl with
+    | AL [AZ 2%Z] => AS "signature parser panicked"
+    | AL [AZ 0%Z; AL attrs] =>
+        if negb simple then AL []
+        else
+          let fl := arg_Z (arg_nth 0 ref) in
+          let alt := AL [AZ (if (fl <? 0)%Z then 0 else fl)%Z; arg_nth 1 ref; arg_nth 2 ref] in
+          if sig_attrs_ok false kc (map attr_of_arg attrs) [alt] then AL []
+          else AS "usage / creation date / expiry do not equal what the signature and the key creation time encode"
+    | _ => if simple then AS "well-formed signature packet rejected" else AL []
+    end
+  else if bytes_eqb op (bs "describe") || bytes_eqb op (bs "describe_x") then
+    let private := arg_bool (arg_nth 0 input) in
+    let ref := arg_nth 3 input in
+    match impl with
+    | AL [AZ 2%Z] => AS "inspection of a PGP key panicked"
+    | AL [AZ 0%Z; ia] =>
+        if Z.eqb (arg_Z (arg_nth 0 ref)) 0 then AL []
+        else verdict (check_description private ref (info_of_arg ia))
+    | _ => AS "inspection failed"
+    end
+  else AL [].
